@@ -39,12 +39,17 @@ def plan(tier, seed):
     return [{"part": i, "parts": n, "seed": seed, "tier": tier, "count": max(1, total // n), "points": 8 if tier == "quick" else 12} for i in range(n)]
 
 
-def gen_case(rnd, points):
+def gen_case(rnd, points, idx=None, seed=0):
     from vlib import faults
     nf = rnd.choice([0, 0, 1, 1, 1, 2, 3])
     kinds = [rnd.choice(faults.KINDS) for _ in range(nf)]
     wk = [rnd.choice(faults.WARNING_KINDS) for _ in range(rnd.choice([0, 0, 1, 2]))]
     sel = rnd.choice(["o-bin", "o-raw", "implicit", "make", "make", "make+o", "none", "o-bin+lst", "make+lst", "make-bad-dir", "make-bad-dir+lst"])
+    if idx is not None and idx < len(faults.KINDS):
+        # the first cases of every run sweep the fault kinds one by one, each as the only fault of its program (a second fault would
+        # fail the build earlier and hide a late one), with a selector that asks for an output and, in two runs out of three, a listing
+        kinds = [faults.KINDS[idx]]
+        sel = ["o-bin+lst", "make+lst", "make+o"][(idx + seed) % 3]
     matrix = []
     for _ in range(points):
         matrix.append([rnd.choice(["bare", "graphical"]), rnd.choice(W_CHOICES)])
@@ -74,7 +79,7 @@ def run_shard(spec):
     root = tempfile.mkdtemp(prefix="c07-", dir=os.getcwd())
     try:
         for i in range(spec["count"]):
-            case = gen_case(rnd, spec["points"])
+            case = gen_case(rnd, spec["points"], spec["part"] * spec["count"] + i, spec["seed"])
             vs, tags = run_case(case, cnt, root, res["sets"]["diag_ids"])
             res["violations"].extend(vs)
             res["evaluations"] += len(case["matrix"])
